@@ -57,10 +57,12 @@ impl Op {
     }
 }
 
-pub const PROGRAMS: [(&str, &str); 3] = [
+pub const PROGRAMS: [(&str, &str); 4] = [
     ("straight", ".test \"t\" {\ninx\ninx\ninx\ninx\ninx\ninx\nbrk\n}"),
     ("loop", ".test \"t\" {\nldx #3\nl:\ndex\nbne l\nbrk\n}"),
     ("subroutine", ".test \"t\" {\njsr s\ninx\nbrk\ns:\niny\nrts\n}"),
+    // (thorough tier only) a subroutine that calls another one
+    ("nested-subroutines", ".test \"t\" {\njsr a\nbrk\na:\njsr b\ninx\nrts\nb:\niny\nrts\n}"),
 ];
 
 #[derive(Clone, Debug, PartialEq)]
@@ -586,7 +588,7 @@ pub fn worker(tier_thorough: bool, shard: usize, shards: usize) -> i32 {
     let (n, bound) = if tier_thorough { (3, 1) } else { (2, 1) };
     let mut result = vec![];
     let mut k = 0usize;
-    for (pname, prog) in PROGRAMS.iter() {
+    for (pname, prog) in PROGRAMS.iter().take(if tier_thorough { 4 } else { 3 }) {
         let reference = reference_run(prog);
         let mut addrs: Vec<u16> = vec![];
         for pc in &reference {
